@@ -111,11 +111,64 @@ def strategy(tier):
         'forward': st.booleans(),      # children point at later (True) or earlier (False) systems of the list
         'fmt_ver': st.sampled_from([1, 2]),
         'direct_io': st.booleans(),    # Particle.parse(file) instead of Element.parse + Particle.parse(root, version)
+        # object SHARING in the built input: the same Operator instance listed again (another system, another category,
+        # or twice in one list) [src system, src category, src index, dst system, dst category, position]; the same
+        # Child instance in a second system [src system, child index, dst system]; the same options dict on two operators
+        'share_ops': st.one_of(st.just([]), st.lists(st.lists(st.integers(0, 7), min_size=6, max_size=6), max_size=3)),
+        'share_children': st.one_of(st.just([]), st.lists(st.lists(st.integers(0, 7), min_size=3, max_size=3), max_size=2)),
+        'share_options': st.booleans(),
     })
+
+
+def share_plan(desc):
+    """Resolve the sharing operations against the descriptor.
+
+    Returns (expanded descriptor, operator inserts, child appends): the expanded descriptor lists an equal copy wherever
+    the built input lists the same object again - the written file cannot tell the difference, so that is the expected
+    value after reading (what the unchanged writer does: one element per listing).
+    """
+    import copy
+    import json
+    # through JSON: no two lists of the copy are one object (st.just([]) hands out the same list every time)
+    d = json.loads(json.dumps({k: v for k, v in desc.items() if not k.startswith('share_')}))
+    systems = d['systems']
+    n = len(systems)
+    d['child_names'] = [child_names(desc, i) for i in range(n)]
+    op_inserts, child_appends = [], []
+    if n == 0:
+        return d, op_inserts, child_appends
+    for si, ci, k, sj, cj, pos in desc.get('share_ops', []):
+        filled = [(i, c) for i in range(n) for c in CATEGORIES if systems[i][c]]     # source: any non-empty list
+        if not filled:
+            break
+        si, cat_i = filled[(si * 8 + ci) % len(filled)]
+        src = systems[si][cat_i]
+        if cj >= 6:          # destination: the source list itself (the same operator twice in one list)
+            sj, cat_j = si, cat_i
+        else:
+            sj, cat_j = sj % n, CATEGORIES[cj]
+        dst = systems[sj][cat_j]
+        k %= len(src)
+        pos %= len(dst) + 1
+        op_inserts.append((si, cat_i, k, sj, cat_j, pos))
+        dst.insert(pos, copy.deepcopy(src[k]))
+    for si, k, sj in desc.get('share_children', []):
+        names = d['child_names'][si % n]
+        if not names:
+            continue
+        name = names[k % len(names)]
+        target = [s['name'] for s in systems].index(name)
+        j = sj % n
+        if (target > j) if desc['forward'] else (target < j):      # keep the child graph acyclic
+            child_appends.append((si % n, k % len(names), j))
+            d['child_names'][j] = d['child_names'][j] + [name]
+    return d, op_inserts, child_appends
 
 
 def child_names(desc, i):
     """Resolve the child indices of system i (acyclic: only later / only earlier systems)."""
+    if 'child_names' in desc:      # expanded descriptor (share_plan)
+        return desc['child_names'][i]
     systems = desc['systems']
     n = len(systems)
     pool = list(range(i + 1, n)) if desc['forward'] else list(range(0, i))
@@ -161,6 +214,22 @@ def b_systems(desc):
         cats = {c: [Operator(o['name'], o['function'], b_options(o['options'])) for o in s[c]] for c in CATEGORIES}
         out.append(Particle(s['name'], b_options(s['options']), children=[Child(n) for n in child_names(desc, i)], **cats))
     return out
+
+
+def b_shared(desc, op_inserts, child_appends):
+    """Build from the ORIGINAL descriptor, then list the very same Operator / Child objects again."""
+    parts = b_systems({k: v for k, v in desc.items() if k != 'child_names'})
+    for si, ci, k, sj, cj, pos in op_inserts:
+        getattr(parts[sj], cj).insert(pos, getattr(parts[si], ci)[k])
+    for si, k, sj in child_appends:
+        parts[sj].children.append(parts[si].children[k])
+    if desc.get('share_options'):
+        ops = [o for p in parts for c in CATEGORIES for o in getattr(p, c)]
+        seen = {}
+        for o in ops:     # operators whose options are equal share ONE options dict (and its Attribute objects)
+            key = repr(sorted((k, repr(a)) for k, a in o.options.items()))
+            o.options = seen.setdefault(key, o.options)
+    return parts
 
 
 def x_opt(o):
@@ -424,8 +493,18 @@ def execute(desc, ctx):
         return execute_file(desc, ctx)
     from srctools.dmx import Element
     from srctools.particles import Particle
+    orig = desc
+    desc, op_inserts, child_appends = share_plan(orig)
     classify(desc, ctx)
-    parts = b_systems(desc)
+    if op_inserts:
+        ctx.label('shared:operator')
+        if any(si == sj and ci == cj for si, ci, k, sj, cj, pos in op_inserts):
+            ctx.label('shared:operator_twice_in_one_list')
+        if any(si != sj for si, ci, k, sj, cj, pos in op_inserts):
+            ctx.label('shared:operator_across_systems')
+    if child_appends:
+        ctx.label('shared:child')
+    parts = b_shared(orig, op_inserts, child_appends)
     want = x_systems(desc)
     d = shape_diff(want, w_systems(parts))
     ctx.check(d is None, 'constructed_value', f'constructed systems differ from the descriptor: {d}')
@@ -554,12 +633,16 @@ def fixed(tier):
                 {'name': 'LEAF', 'options': opts[:3], 'children': [], **{c: ([op, op] if c == 'forces' else []) for c in CATEGORIES}},
             ],
             'drive': kind, 'forward': True, 'fmt_ver': 2, 'direct_io': kind == 'values',
+            # the same Operator object again in another system, twice in one list; the same Child in a second system
+            'share_ops': [[0, 0, 0, 2, 0, 0], [0, 1, 0, 0, 1, 0], [2, 4, 1, 1, 5, 0]],
+            'share_children': [[0, 1, 1]], 'share_options': kind != 'gen',
         }
 
 
 SUBS = [
     Sub('particles_roundtrip', execute, strategy=strategy, fixed=fixed, quick=480, thorough=8000, floor=100, quick_shards=16,
-        must_hit=('drive:list', 'drive:values', 'drive:gen', 'children', 'array', 'name:mixed_case', 'system_options',
+        must_hit=('drive:list', 'drive:values', 'drive:gen', 'children', 'shared:operator', 'shared:operator_twice_in_one_list',
+                  'shared:operator_across_systems', 'shared:child', 'array', 'name:mixed_case', 'system_options',
                   'file:sample.pcf', 'fmt:1', 'fmt:2')
         + tuple('cat:' + c for c in CATEGORIES) + tuple('type:' + t for t in ARRAY_TYPES)),
 ]
